@@ -39,7 +39,11 @@ CHECKS.update({
         'Programs: bodies of reads/writes/removals over inline and file values, nested blocks, a raise after every body position, concurrent readers/writers, a second thread on the same object; via Cache/Deque/Index.transact.',
    technique='TLA+ block-atomicity monitor evaluated by TLC on scheduler-enumerated executions'),
 })
-NOTES = {'C05': CONC_NOTE, 'C06': CONC_NOTE, 'C03': SEQ_NOTE, 'C04': SEQ_NOTE, 'C09': SEQ_NOTE, 'C10': SEQ_NOTE}
+CHECKS['C08'] = dict(level='fault_enumeration', ref='DESIGN.md 3.5, 6 (C08)',
+   text='Single-fault enumeration on the real code: for every mutating method x initial contents the workload is re-run once per database statement / file operation with an OperationalError or OSError injected at exactly that point (plus unbindable tag, unencodable text, stream breaking mid-read); '
+        'every run, and a batch of concurrent and transactional schedules, is validated by TLC against the TLA+ monitor whose QuiescentAgreement clause compares counters, rows and value files whenever no call is in flight and at the end.',
+   technique='fault enumeration at the SQLite/file boundary; every run validated by the TLA+ monitor (MonitorTrace) with TLC')
+NOTES = {'C08': CONC_NOTE + ' Faults are not injected into COMMIT/ROLLBACK (SQLite atomic commit trusted) nor into file removal (removing an existing file is assumed to succeed).', 'C05': CONC_NOTE, 'C06': CONC_NOTE, 'C03': SEQ_NOTE, 'C04': SEQ_NOTE, 'C09': SEQ_NOTE, 'C10': SEQ_NOTE}
 
 checks = []
 for pid, c in sorted(CHECKS.items()):
